@@ -340,6 +340,11 @@ let handle_line (line : String.t) : unit =
       | "unescape_attr" -> hex_of_bytes (unescape true s)
       | _ -> failwith ("unknown function " ^ name) in
     print_string ("V " ^ out ^ "\n")
+  | ["KWH"; fn; hex] ->
+    (* a keyword-shape handler of css/handlers.go, by function name *)
+    (match List.find_opt (fun e -> string_of_chars (fst e) = fn) css_kw_handlers with
+     | Some e -> print_string (if kw_shape_handler css_acceptors (snd e) (bytes_of_hex hex) then "V 1\n" else "V 0\n")
+     | None -> print_string "ERR no-such-keyword-handler\n")
   | ["RC"; vals; sets] ->
     (* recursiveCheck: components (comma-separated hex, "_" = none), sub-handlers as finite sets (";"-separated lists) *)
     let hx s = if s = "e" then [] else bytes_of_hex s in   (* "e" = the empty string *)
